@@ -57,6 +57,10 @@ type c08In struct {
 	Route       string `json:"route,omitempty"`        // nil | real | noop
 	CacheOffers []Bs   `json:"cache_offers,omitempty"` // ResponseFormat is called with these first (stores its answer)
 	UseCache    bool   `json:"use_cache,omitempty"`
+	// the order of configuration: numbers of the recording error responders assigned to api.ServeError BEFORE the Context /
+	// handler is built from the API and AFTER that (before the request is served). Both empty = [1] before (the usual order).
+	RBefore []int `json:"r_before,omitempty"`
+	RAfter  []int `json:"r_after,omitempty"`
 	// hist only (Produces, Method, Codes, Data, Auth, Attempt, Authz, Lines are per operation / per step there)
 	Ops   []c08Op   `json:"ops,omitempty"`
 	Steps []c08Step `json:"steps,omitempty"`
@@ -80,6 +84,7 @@ type c08Step struct {
 	Authz   Bs                `json:"authz,omitempty"`
 	Keys    map[string]string `json:"keys,omitempty"` // api-key scheme -> token sent ("" none, good, bad<code>)
 	Data    string            `json:"data"`
+	RInstall []int            `json:"r_install,omitempty"` // error responders assigned to the shared API just before this request
 }
 
 type c08Call struct {
@@ -102,6 +107,7 @@ type c08Obs struct {
 	Body       Bs        `json:"body,omitempty"`
 	Errs       []int     `json:"errs,omitempty"`
 	Ran        bool      `json:"ran,omitempty"`
+	Invoked    []int     `json:"invoked,omitempty"` // numbers of the error responders called, in order
 	// hist
 	Alts  [][]string   `json:"alts,omitempty"`  // a step: the route's alternatives, schemes in the order the route consults them
 	Steps []c08StepObs `json:"steps,omitempty"` // the case: one entry per request
@@ -142,8 +148,9 @@ func (c08) Decode(raw json.RawMessage) (any, error) {
 type c08Payload struct{ tag string }
 
 type c08Log struct {
-	calls []c08Call
-	errs  []int
+	calls   []c08Call
+	errs    []int
+	invoked []int
 }
 
 type c08Producer struct {
@@ -383,9 +390,9 @@ func (c08) Run(inAny any) any {
 			k := strings.ToLower(string(mt))
 			api.RegisterProducer(string(mt), &c08Producer{k, log})
 		}
-		api.ServeError = func(w http.ResponseWriter, r *http.Request, err error) {
-			log.errs = append(log.errs, c08ErrCode(err))
-			w.WriteHeader(599)
+		rBefore, rAfter := c08RCfg(in)
+		for _, id := range rBefore {
+			api.ServeError = c08Responder(log, id)
 		}
 		data, _ := c08Data(in.Data)
 		api.RegisterOperation(in.Method, "/x", runtime.OperationHandlerFunc(func(interface{}) (interface{}, error) {
@@ -415,6 +422,9 @@ func (c08) Run(inAny any) any {
 
 		ctx := middleware.NewContext(doc, api, nil)
 		h := ctx.APIHandler(nil)
+		for _, id := range rAfter { // the server is assembled, its error responder is (re)assigned afterwards
+			api.ServeError = c08Responder(log, id)
+		}
 		req := httptest.NewRequest(in.Method, "/x", nil)
 		if len(in.Lines) > 0 {
 			req.Header["Accept"] = bsList(in.Lines)
@@ -475,7 +485,25 @@ func (c08) Run(inAny any) any {
 	obs.Calls = log.calls
 	obs.Body = Bs(rw.body)
 	obs.Errs = log.errs
+	obs.Invoked = log.invoked
 	return obs
+}
+
+// c08RCfg: the responders assigned before / after the Context is built (nothing said = responder 1 before).
+func c08RCfg(in c08In) (before, after []int) {
+	if len(in.RBefore) == 0 && len(in.RAfter) == 0 {
+		return []int{1}, nil
+	}
+	return in.RBefore, in.RAfter
+}
+
+// c08Responder: recording error responder number id.
+func c08Responder(log *c08Log, id int) func(http.ResponseWriter, *http.Request, error) {
+	return func(w http.ResponseWriter, r *http.Request, err error) {
+		log.errs = append(log.errs, c08ErrCode(err))
+		log.invoked = append(log.invoked, id)
+		w.WriteHeader(599)
+	}
 }
 
 // ---- histories on one Context ----
@@ -553,6 +581,7 @@ type c08Env struct {
 	def        string
 	registered []Bs
 	rebuild    func() // replaces ctx and h by a new Context over the same API
+	install    func(id int) // assigns recording error responder number id to the API
 }
 
 func c08NewEnv(in c08In) *c08Env {
@@ -574,9 +603,10 @@ func c08NewEnv(in c08In) *c08Env {
 	for _, mt := range in.Register {
 		api.RegisterProducer(string(mt), &c08Producer{strings.ToLower(string(mt)), env.log})
 	}
-	api.ServeError = func(w http.ResponseWriter, r *http.Request, err error) {
-		env.log.errs = append(env.log.errs, c08ErrCode(err))
-		w.WriteHeader(599)
+	env.install = func(id int) { api.ServeError = c08Responder(env.log, id) }
+	rBefore, rAfter := c08RCfg(in)
+	for _, id := range rBefore {
+		env.install(id)
 	}
 	for _, op := range in.Ops {
 		api.RegisterOperation(op.Method, op.Path, runtime.OperationHandlerFunc(func(interface{}) (interface{}, error) {
@@ -614,6 +644,9 @@ func c08NewEnv(in c08In) *c08Env {
 		env.h = env.ctx.APIHandler(nil)
 	}
 	env.rebuild()
+	for _, id := range rAfter {
+		env.install(id)
+	}
 	return env
 }
 
@@ -636,8 +669,11 @@ func c08StepRequest(in c08In, st c08Step) *http.Request {
 func c08Answer(env *c08Env, in c08In, st c08Step) c08Obs {
 	var obs c08Obs
 	rw := &c08Writer{h: http.Header{}}
-	env.log.calls, env.log.errs = nil, nil
+	env.log.calls, env.log.errs, env.log.invoked = nil, nil, nil
 	env.data, _ = c08Data(st.Data)
+	for _, id := range st.RInstall {
+		env.install(id)
+	}
 	env.ran = false
 	panicked, msg := recoverTo(func() {
 		mr, _, ok := env.ctx.RouteInfo(c08StepRequest(in, st))
@@ -673,6 +709,7 @@ func c08Answer(env *c08Env, in c08In, st c08Step) c08Obs {
 	obs.Calls = env.log.calls
 	obs.Body = Bs(rw.body)
 	obs.Errs = env.log.errs
+	obs.Invoked = env.log.invoked
 	obs.Ran = env.ran
 	return obs
 }
@@ -707,6 +744,11 @@ func c08RunHist(in c08In) any {
 				continue
 			}
 			fresh := c08NewEnv(in)
+			for _, prev := range in.Steps[:i] {
+				for _, id := range prev.RInstall {
+					fresh.install(id)
+				}
+			}
 			so.Fresh = c08Answer(fresh, in, st)
 			so.Comparable = c08SameAlts(so.Hist.Alts, so.Fresh.Alts)
 			for try := 0; !so.Comparable && try < 8; try++ {
@@ -776,10 +818,16 @@ func c08CoqHist(in c08In, obs c08Obs) string {
 		st, so := in.Steps[i], obs.Steps[i]
 		op := in.Ops[st.Op]
 		_, tag := c08Data(st.Data)
-		return fmt.Sprintf("(HStep %s %s %s %s %s %s %s %s %s %s %s %s %s)",
+		_, after := c08RCfg(in)
+		after = append([]int{}, after...)
+		for _, prev := range in.Steps[:i+1] {
+			after = append(after, prev.RInstall...)
+		}
+		return fmt.Sprintf("(HStep %s %s %s %s %s %s %s %s %s %s %s %s %s %s %s)",
 			coqBytesList(bsList(op.Produces)), coqBytesList(bsList(so.Hist.RouteProd)), c08Codes(op.Codes), coqBytesList(bsList(st.Lines)),
 			coqBool(op.Method == "HEAD"), c08CoqSec(in, st, so.Hist.Alts), c08CoqData(st.Data), coqBytes(tag),
-			coqBool(so.Hist.Ran), c08CoqObs(so.Hist), coqBool(so.Comparable), coqBool(so.Fresh.Ran), c08CoqObs(so.Fresh))
+			coqBool(so.Hist.Ran), c08CoqObs(so.Hist), coqBool(so.Comparable), coqBool(so.Fresh.Ran), c08CoqObs(so.Fresh),
+			c08CoqRCfg(in, after), c08Ints(so.Hist.Invoked))
 	})
 	return fmt.Sprintf("CHist %s %s %s", coqBytes(string(obs.Default)), coqBytesList(bsList(obs.Registered)), steps)
 }
@@ -796,10 +844,10 @@ func (c08) Coq(inAny any, obsAny any) string {
 		if in.Auth == "basic" {
 			auth = fmt.Sprintf("(Basic %s %s %s)", coqBytes(c08Realm(in)), c08CoqAttempt[c08AttemptKind(in)], coqNatBig(in.ErrCode))
 		}
-		return fmt.Sprintf("CServe %s %s %s %s %s %s %s %s %s %s %s %s",
+		return fmt.Sprintf("CServe %s %s %s %s %s %s %s %s %s %s %s %s %s %s",
 			coqBytes(string(obs.Default)), coqBytesList(bsList(obs.Registered)), coqBytesList(bsList(in.Produces)), coqBytesList(bsList(obs.RouteProd)),
 			c08Codes(in.Codes), coqBytesList(bsList(in.Lines)), head, auth, c08CoqData(in.Data), coqBytes(tag),
-			coqBool(obs.Ran), c08CoqObs(obs))
+			coqBool(obs.Ran), c08CoqObs(obs), c08CoqRCfg(in, nil), c08Ints(obs.Invoked))
 	}
 	route := "None"
 	switch in.Route {
@@ -816,9 +864,21 @@ func (c08) Coq(inAny any, obsAny any) string {
 	if c08DirectAuth(in) {
 		dauth = fmt.Sprintf("(Some (%s, %s))", coqBytes(c08Realm(in)), c08CoqAttempt[c08AttemptKind(in)])
 	}
-	return fmt.Sprintf("CDirect %s %s %s %s %s %s %s %s %s %s %s %s",
+	return fmt.Sprintf("CDirect %s %s %s %s %s %s %s %s %s %s %s %s %s %s",
 		coqBytes(string(obs.Default)), coqBytesList(bsList(obs.Registered)), coqBytesList(bsList(in.Arg)), route, cached,
-		coqBytesList(bsList(in.Lines)), head, coqBytes(string(obs.Marker)), dauth, c08CoqData(in.Data), coqBytes(tag), c08CoqObs(obs))
+		coqBytesList(bsList(in.Lines)), head, coqBytes(string(obs.Marker)), dauth, c08CoqData(in.Data), coqBytes(tag), c08CoqObs(obs),
+		c08CoqRCfg(in, nil), c08Ints(obs.Invoked))
+}
+
+func c08Ints(l []int) string { return coqList(l, func(i int) string { return coqNat(i) }) }
+
+// c08CoqRCfg: the responders assigned before the Context was built and after it (after = nil: those of the input)
+func c08CoqRCfg(in c08In, after []int) string {
+	b, a := c08RCfg(in)
+	if after != nil {
+		a = after
+	}
+	return fmt.Sprintf("(mkrcfg %s %s)", c08Ints(b), c08Ints(a))
 }
 
 func (c08) Classify(inAny any, obsAny any) []string { return nil }
@@ -909,6 +969,13 @@ func c08HistCategory(in c08In, obs c08Obs) (string, bool) {
 	}
 	sort.Strings(os)
 	cat := fmt.Sprintf("hist/steps%d/idless%d%s/codes%d/sec%dx%d/%s/%s", len(in.Steps), idless, samePath, len(codes), maxAlts, maxSchemes, basicPos, strings.Join(os, "+"))
+	swaps := 0
+	for _, st := range in.Steps {
+		swaps += len(st.RInstall)
+	}
+	if swaps > 0 || len(in.RAfter) > 0 {
+		cat += fmt.Sprintf("/responder-a%d-swaps%d", len(in.RAfter), swaps)
+	}
 	return cat, len(in.Steps) >= 2 || maxAlts >= 2 || maxSchemes >= 2
 }
 
@@ -970,6 +1037,11 @@ func (c08) Category(inAny any, obsAny any) (string, bool) {
 		}
 	} else if in.Auth == "basic" {
 		extra = "/basic-" + c08AttemptKind(in) + c08VariantLabel(in)
+	}
+	if len(in.RAfter) > 0 {
+		extra += fmt.Sprintf("/responder-b%d-a%d", len(in.RBefore), len(in.RAfter))
+	} else if len(in.RBefore) > 1 {
+		extra += fmt.Sprintf("/responder-b%d", len(in.RBefore))
 	}
 	cat := fmt.Sprintf("%s/%s/%s/%s%s/%s/%s/def-%s%s", in.Kind, in.Method, code, data, params, acc, outcome, in.Defaults, extra)
 	nontrivial := len(obs.Calls) > 0 || len(obs.Errs) > 0 || len(obs.RouteProd) >= 2 || len(in.Arg) >= 2
@@ -1262,9 +1334,64 @@ func c08GenHist(r *rand.Rand) c08In {
 	return in
 }
 
+// c08EnumerateOrders: every order of configuration x the stages an error can come from (the handler: coded, plain, composite;
+// security: refused basic credentials; negotiation: 406; default-only operation: 500), through the handler chain and through a
+// direct Respond; and histories in which the shared API is given a new responder between two requests.
+func c08EnumerateOrders() []any {
+	var out []any
+	n := 0
+	for _, o := range c08RespOrders[1:] {
+		for _, what := range []string{"err:404", "err:plain", "err:composite:422", "value", "basic-bad", "406", "default-only"} {
+			for _, kind := range []string{"serve", "direct"} {
+				n++
+				in := c08In{Kind: kind, Defaults: "json", Method: c08Methods[n%3], Codes: []int{200}, Data: "value",
+					Produces: toBs([]string{"application/json", "text/plain"}), Register: toBs([]string{"text/plain"}), RBefore: o[0], RAfter: o[1]}
+				switch what {
+				case "basic-bad":
+					if kind == "direct" {
+						continue
+					}
+					in.Auth, in.Attempt, in.ErrCode, in.Realm = "basic", "bad", 401, "r"
+				case "406":
+					if kind == "direct" {
+						continue
+					}
+					in.Lines = []Bs{"image/png"}
+				case "default-only":
+					in.Codes = []int{0}
+				default:
+					in.Data = what
+				}
+				if kind == "direct" {
+					in.Route = []string{"real", "nil", "noop"}[n%3]
+					in.Arg = in.Produces
+				}
+				out = append(out, in)
+			}
+		}
+	}
+	// histories: the responder changes between two requests to one Context
+	for k, order := range [][]int{{0, 1}, {1, 0, 1}, {0, 0}, {3, 0, 3}, {0, 3, 1, 3}} {
+		for _, data := range []string{"err:404", "err:plain", "value"} {
+			for _, o := range [][2][]int{{{1}, nil}, {nil, {1}}, {{1}, {2}}} {
+				in := c08HistStatus([]string{"", "", "", ""}, order, data)
+				in.RBefore, in.RAfter = o[0], o[1]
+				for i := range in.Steps {
+					if i > 0 && (i+k)%2 == 1 {
+						in.Steps[i].RInstall = []int{4 + i}
+					}
+				}
+				out = append(out, in)
+			}
+		}
+	}
+	return out
+}
+
 func (c08) Enumerate(tier string) []any {
 	var out []any
 	out = append(out, c08EnumerateHist()...)
+	out = append(out, c08EnumerateOrders()...)
 	// failed and accepted basic-auth attempts: authenticator variants x realms x credentials, through the handler and
 	// through a direct Respond of an error after the authenticator examined the request
 	n := 0
@@ -1400,7 +1527,41 @@ func c08Register(r *rand.Rand, produces []Bs) []Bs {
 	return out
 }
 
+// c08RespOrders: (assigned before the Context is built, assigned after). Responder 0 is never assigned: an API nobody
+// assigned a responder to keeps errors.ServeError, which cannot record.
+var c08RespOrders = [][2][]int{
+	{{1}, nil},       // the usual order
+	{nil, {1}},       // the server is assembled first, its error responder is customised afterwards
+	{{1}, {2}},       // replaced after assembly
+	{{1, 2}, nil},    // replaced before assembly
+	{nil, {1, 2}},    // assigned twice after assembly
+	{{1}, {2, 1}},    // replaced and put back
+	{{2, 1}, {3}},
+}
+
+// c08GenOrder draws the order of configuration of a case (most cases keep the usual one) and, for a history, the
+// requests before which the shared API is given a new error responder.
+func c08GenOrder(r *rand.Rand, in *c08In) {
+	if r.Intn(3) == 0 {
+		o := c08RespOrders[1+r.Intn(len(c08RespOrders)-1)]
+		in.RBefore, in.RAfter = o[0], o[1]
+	}
+	next := 4
+	for i := range in.Steps {
+		if i > 0 && r.Intn(4) == 0 {
+			in.Steps[i].RInstall = []int{next}
+			next++
+		}
+	}
+}
+
 func (c08) Gen(r *rand.Rand, tier string, i int) any {
+	in := c08Gen1(r, tier, i)
+	c08GenOrder(r, &in)
+	return in
+}
+
+func c08Gen1(r *rand.Rand, tier string, i int) c08In {
 	if i%10 == 9 {
 		return c08GenHist(r)
 	}
